@@ -1,6 +1,6 @@
-//! family `tokenfee`: marginfi's calculate_pre_fee_amount and the real Token-2022 TransferFee::calculate_fee.
+//! family `tokenfee`: marginfi's pre-fee amount (through the mint-account wrapper the handlers call, so that the harness
+//! depends on no helper a refactor may drop) and the real Token-2022 TransferFee::calculate_fee.
 use crate::rng::Rng;
-use marginfi::utils::calculate_pre_fee_amount;
 use anchor_spl::token_2022::spl_token_2022::extension::transfer_fee::TransferFee;
 
 pub fn tf(bps: u16, max: u64) -> TransferFee {
@@ -62,6 +62,20 @@ pub fn mint_bytes(kind: u64, older: (u16, u64), newer_epoch: u64, newer: (u16, u
     (t22::ID, data)
 }
 
+/// the pre-fee amount for a transfer fee of `bps` / `max`: `calculate_pre_fee_spl_deposit_amount` on a really laid-out
+/// Token-2022 mint whose older and newer fee are both this one (`None`: the wrapper answers an error or aborts)
+pub fn pre_fee(bps: u16, max: u64, amt: u64) -> Option<u64> {
+    use anchor_lang::prelude::*;
+    let (owner, mut data) = mint_bytes(2, (bps, max), 0, (bps, max));
+    let key = Pubkey::new_from_array([9u8; 32]);
+    let mut lam = 1u64;
+    let ai = AccountInfo::new(&key, false, false, &mut lam, &mut data, &owner, false, 0);
+    match std::panic::catch_unwind(std::panic::AssertUnwindSafe(|| marginfi::utils::calculate_pre_fee_spl_deposit_amount(ai, amt, 0))) {
+        Ok(Ok(v)) => Some(v),
+        _ => None,
+    }
+}
+
 /// `tf.mint` line: the three mint-level helpers of utils/general.rs (REAL functions on a really laid-out mint account) and
 /// what the REAL token program's TransferFeeConfig withholds in that epoch
 pub fn mint_line(rng: &mut Rng) -> String {
@@ -112,8 +126,7 @@ pub fn gen(rng: &mut Rng, n: usize, out: &mut Vec<String>) {
         if i % 2 == 0 {
             out.push(format!("tf.fee {} {} {} => {}", bps, max, amt, o(t.calculate_fee(amt))));
         } else {
-            let r = std::panic::catch_unwind(|| calculate_pre_fee_amount(&t, amt));
-            out.push(format!("tf.pre {} {} {} => {}", bps, max, amt, match r { Ok(v) => o(v), Err(_) => "panic".into() }));
+            out.push(format!("tf.pre {} {} {} => {}", bps, max, amt, o(pre_fee(bps, max, amt))));
         }
     }
 }
